@@ -12,8 +12,9 @@ from ..kj import scratch
 LEVEL = "proof"
 
 MANIFEST = {
-    "technique": "Coq proof (row-by-row fidelity of the emitted sml table, hook rows exactly once per state) + parsing the real make_transition_table back + declaration regexes + g++ -fsyntax-only against an interface-only sml stub",
-    "text": ("Theorems C09_rows (rows_of (gen_sml ee T) = spec_rows T: one row per input row in order, same source/event/guard/action/target, gnone/none "
+    "technique": "Coq proof (row-by-row fidelity of the emitted sml table, hook rows exactly once per state, executable reading of the table = table interpreter, declarations exactly once) + parsing the real make_transition_table back + g++ compilation AND execution of the generated unit against a functional mini-sml header",
+    "text": ("Theorem C09_sem (under the semantics of boost::sml stated in Model/SmlTT.v -- initial state, first-match in table order, external vs internal transitions, "
+             "entry/exit hooks -- reading the generated table makes exactly the table interpreter's callbacks and states, for every table, event sequence and guard oracle); theorems C09_rows (rows_of (gen_sml ee T) = spec_rows T: one row per input row in order, same source/event/guard/action/target, gnone/none "
              "for absent guard/action, no target for rows without next state, initial marker on row 0 only), C09_entry_exit (exactly one entry and one exit "
              "hook row per state of the table incl. target-only states), C09_hooks_only_states, C09_self_consistent (every declaration a row needs -- state, event with its parameter list, guard, action, "
              "(action,event) signature, in controller / interface / implementation / test unit -- is produced exactly once by the per-element blocks of the file "
@@ -21,10 +22,13 @@ MANIFEST = {
              "structure of smgen.innerexpand_sml regenerated into Gen/SmlTmpl.v; the real make_transition_table(...) text parsed back to items and compared "
              "with gen_sml and, independently, with a Python reading of the property; the (kind, name, params) triples read out of the four real files by per-kind regexes equal Decls.decls_file and every reference of refs_cpp is found "
              "exactly once; smgen.CTransitionTableModel vs Model/TTable.v on a batch of its own, the model following Gen/TTModelSrc.v (translator obligations on the "
-             "containers and the signature key); both translation units type-checked by g++ -std=c++17 -fsyntax-only against harness/stubs/boost/sml.hpp."),
+             "containers and the signature key); both translation units type-checked by g++ -std=c++17 -fsyntax-only against harness/stubs/boost/sml.hpp; the same stated semantics is run in Python over the "
+             "rows parsed back from the real text (vs the interpreter and vs the extracted sml_run), and for non-threaded cases the generated implementation unit is compiled with a "
+             "recording controller subclass against the FUNCTIONAL mini-sml header and executed: callback lines and Is<State>() flags vs the interpreter."),
     "note": ("Self-consistency is proved for names, parameter lists and multiplicities of declarations; C++ type checking itself (name lookup, overload resolution, member "
-             "types) stays OBSERVED by g++ -fsyntax-only against the stub, not proved. The sml stub stands in for boost::sml "
-             "(empty submodule): it checks that referenced names exist and are callable with the right argument types, not sml's semantics. "
+             "types) stays OBSERVED by g++ -fsyntax-only against the stub, not proved. harness/stubs/boost/sml.hpp stands in for boost::sml "
+             "(empty submodule): it implements the semantics STATED in Model/SmlTT.v for the subset used, it is not boost::sml; whether boost::sml itself orders exit/action/entry "
+             "as stated is the assumption of C09_sem. "
              "Proved about smgen as repaired by three fix: commits ('' next state internal, hooks for target-only states, signature key)."),
 }
 RULE = ("random well-formed tables (as C08: multi-row groups, target-only states, all absent spellings incl. '' next state, repeated rows) plus tables with "
@@ -33,11 +37,12 @@ RULE = ("random well-formed tables (as C08: multi-row groups, target-only states
         "non-trivial = table has a target-only state, an absent guard/action/target or a colliding signature; distinct = (table, interface, options)")
 ASSUMPTIONS = ["forallb row_ok T: start state and event are UpperCamelCase alphanumeric identifiers, next/action/guard are such identifiers or an absent spelling",
                "defaults only on a trailing run of an event's members; member types are C++ primitive types",
-               "no guard is named Gnone/gnone (its functor instance would be the always-true guard's name) and no action/guard is named <State>OnEntry/OnExit"]
+               "sml_names_ok: no guard is named Gnone/gnone (its functor instance would be the always-true guard's name); no action/guard is named <State>OnEntry/OnExit",
+               "the semantics of boost::sml as stated in Model/SmlTT.v (C09_sem's assumption)"]
 TRUSTED = ["Coq 8.16.1 kernel (coqc; coqchk in the thorough tier)", "axioms: none",
            "translator/smltmpl.py (ast of smgen.innerexpand_sml and the two replace_NONE helpers, regexes on the template, fail closed)",
            "extraction: ExtrOcamlBasic + ExtrOcamlNativeString; ocaml/cmds_sm.ml",
-           "harness row parser / declaration regexes; harness/stubs/boost/sml.hpp and minunit.h (interface-only stand-ins)",
+           "harness row parser / declaration regexes; harness/stubs/boost/sml.hpp (functional stand-in with the stated semantics) and minunit.h",
            "modelled, not verified: boost::sml's reading of the table (row without `= state<..>` is internal, `*` marks the initial state); g++ 14 as type checker"]
 ALLOWED_AXIOMS = []
 
